@@ -41,6 +41,20 @@ func genC23(r *sim.Rand, tier string) *sim.Case {
 	for i := 0; i < n; i++ {
 		x := r.Intn(100)
 		switch {
+		case x < faultPct && r.Intn(4) == 0:
+			// The paused-leader scenario: the region's leader is cut off and stops
+			// ticking, the others elect a new leader and acknowledge writes, then the
+			// old leader is asked to serve reads.
+			rg := int64(r.Intn(nreg))
+			c.Ops = append(c.Ops, sim.Op{K: "freeze_leader", A: rg, D: int64(r.Pick(0, 10, 100))})
+			c.Ops = append(c.Ops, sim.Op{K: "wait", D: int64(r.Pick(1500, 3000, 6000))})
+			for k, m := 0, 1+r.Intn(3); k < m; k++ {
+				c.Ops = append(c.Ops, sim.Op{K: "write", A: int64(r.Intn(nw)), B: int64(r.Intn(nkeys)), D: int64(r.Pick(0, 10, 100, 300))})
+			}
+			c.Ops = append(c.Ops, sim.Op{K: "wait", D: int64(r.Pick(500, 1500, 3000))})
+			for k, m := 0, 1+r.Intn(3); k < m; k++ {
+				c.Ops = append(c.Ops, sim.Op{K: "read", A: int64(r.Intn(nr)), B: int64(r.Intn(nkeys)), C: 9, D: int64(r.Pick(0, 50, 300))})
+			}
 		case x < faultPct:
 			op := genFault(r, 3, nreg)
 			c.Ops = append(c.Ops, op)
@@ -492,7 +506,12 @@ func execC23(t *testing.T, c *sim.Case) *sim.Result {
 				h.beginWrite(wi, key)
 			case "read":
 				tgt := -1
-				if op.C > 0 {
+				if op.C == 9 {
+					// the store last frozen by freeze_leader (a paused, cut-off former leader)
+					if w.frozen >= 0 {
+						tgt = w.frozen
+					}
+				} else if op.C > 0 {
 					tgt = imod(op.C-1, 3)
 				}
 				h.read(imod(op.A, h.nr), imod(op.B, h.nkeys), tgt, false)
